@@ -41,13 +41,15 @@ def gen_world(rng):
         extra.append({"letter": letter, "name": {"a": "Alpha", "b": "Beta", "c": "Gamma"}[letter], "items": [f"{letter}{j}x" for j in range(n)]})
     system = rng.chance(0.3)
     stocks = []
-    n_st = 1 if system else rng.choice([1, 1, 2])
+    n_st = rng.choice([1, 1, 2]) if system else rng.choice([1, 1, 2])
     for k in range(n_st):
         cls = rng.weighted([("simple", 1 if not system else 0), ("inflow", 4), ("stockdriven", 4)])
         s = {"cls": cls, "lt": rng.choice(list(LT)), "lt_as": rng.choice(["class", "instance", "instance_prms"]),
              "solver": rng.choice(["manual", "lapack"]), "inflow_at": rng.choice(["start", "middle", "end"]),
              "n_pts": rng.choice([1, 1, 2, 3, 5, 10]), "share": None}
-        if k == 1 and stocks[0]["cls"] != "simple" and cls != "simple" and rng.chance(0.6):
+        if k == 1 and system and rng.chance(0.7):
+            s["lt"] = stocks[0]["lt"]  # two definition-built stocks with the same lifetime class and dims, but their own parameters
+        elif k == 1 and stocks[0]["cls"] != "simple" and cls != "simple" and rng.chance(0.6):
             s["share"] = 0
             s["lt"] = stocks[0]["lt"]
         stocks.append(s)
@@ -69,20 +71,22 @@ class _Sys(MFASystem):
     """the generated model component: parameters -> flows -> stock driver -> stock.compute() -> flows"""
 
     def compute(self):
-        stock = next(iter(self.stocks.values()))
-        lt = stock.lifetime_model
-        names = list(lt.prms)
-        lt.set_prms(**{n: self.parameters[n] for n in names})
-        if isinstance(stock, InflowDrivenDSM):
-            self.flows["sysenv => use"][...] = self.parameters["driver"]
-            stock.inflow[...] = self.flows["sysenv => use"]
-            stock.compute()
-            self.flows["use => sysenv"][...] = stock.outflow
-        else:
-            stock.stock[...] = self.parameters["driver"]
-            stock.compute()
-            self.flows["sysenv => use"][...] = stock.inflow
-            self.flows["use => sysenv"][...] = stock.outflow
+        stocks = list(self.stocks.values())
+        for k, stock in enumerate(stocks):  # first all lifetime parameters ...
+            lt = stock.lifetime_model
+            lt.set_prms(**{n: self.parameters[f"{n}_{k}"] for n in list(lt.prms)})
+        for k, stock in enumerate(stocks):  # ... then drivers and the stock computations
+            fin, fout = self.flows[f"sysenv => use{k}"], self.flows[f"use{k} => sysenv"]
+            if isinstance(stock, InflowDrivenDSM):
+                fin[...] = self.parameters[f"driver_{k}"]
+                stock.inflow[...] = fin
+                stock.compute()
+                fout[...] = stock.outflow
+            else:
+                stock.stock[...] = self.parameters[f"driver_{k}"]
+                stock.compute()
+                fin[...] = stock.inflow
+                fout[...] = stock.outflow
 
 
 def _cleanroom_fresh(payload):
@@ -276,23 +280,25 @@ class StockSim(Engine):
         st.dims = self._dims(world)
         st.stocks, st.lts = [], []
         if world["system"]:
-            s = world["stocks"][0]
             letters = tuple(d.letter for d in st.dims)
-            names = PRM_NAMES[s["lt"]]
+            procs, flows, sdefs, pdefs, pnames = ["sysenv"], [], [], [], []
+            for k, s in enumerate(world["stocks"]):
+                procs.append(f"use{k}")
+                flows += [FlowDefinition(from_process="sysenv", to_process=f"use{k}", dim_letters=letters),
+                          FlowDefinition(from_process=f"use{k}", to_process="sysenv", dim_letters=letters)]
+                sdefs.append(StockDefinition(name=f"in_use{k}", process=f"use{k}", dim_letters=letters, subclass=CLS[s["cls"]],
+                                             lifetime_model_class=LT[s["lt"]], solver=s["solver"]))
+                pnames += [f"{n}_{k}" for n in PRM_NAMES[s["lt"]]] + [f"driver_{k}"]
             definition = MFADefinition(
                 dimensions=[DimensionDefinition(name=d.name, letter=d.letter, dtype=d.dtype) for d in st.dims],
-                processes=["sysenv", "use"],
-                flows=[FlowDefinition(from_process="sysenv", to_process="use", dim_letters=letters),
-                       FlowDefinition(from_process="use", to_process="sysenv", dim_letters=letters)],
-                stocks=[StockDefinition(name="in_use", process="use", dim_letters=letters, subclass=CLS[s["cls"]],
-                                        lifetime_model_class=LT[s["lt"]], solver=s["solver"])],
-                parameters=[ParameterDefinition(name=n, dim_letters=letters) for n in names + ["driver"]],
+                processes=procs, flows=flows, stocks=sdefs,
+                parameters=[ParameterDefinition(name=n, dim_letters=letters) for n in pnames],
             )
             st.definition = definition
-            st.param_names = names + ["driver"]
+            st.param_names = pnames
             st.system = self._new_system(st, None)
-            st.stocks = [st.system.stocks["in_use"]]
-            st.lts = [st.stocks[0].lifetime_model]
+            st.stocks = list(st.system.stocks.values())
+            st.lts = [x.lifetime_model for x in st.stocks]
             return
         for k, s in enumerate(world["stocks"]):
             dims_k = st.dims
@@ -327,7 +333,8 @@ class StockSim(Engine):
         for pd_ in d.parameters:
             ds = dims.get_subset(pd_.dim_letters)
             if params_from is None:
-                base = {"mean": 4.0, "std": 1.5, "weibull_shape": 2.0, "weibull_scale": 4.0, "driver": 1.0}[pd_.name]
+                base = {"mean": 4.0, "std": 1.5, "weibull_shape": 2.0, "weibull_scale": 4.0, "driver": 1.0}[pd_.name.rsplit("_", 1)[0]]
+                base = base + 0.5 * int(pd_.name.rsplit("_", 1)[1])  # every stock starts with its own parameter values
                 vals = np.full(ds.shape, base)
             else:
                 vals = params_from[pd_.name].values.copy()
@@ -590,17 +597,17 @@ class StockSim(Engine):
             name = names[op["which"] % len(names)]
             p = sys_.parameters[name]
             ranges = {"mean": (1.0, 8.0), "std": (0.5, 2.5), "weibull_shape": (0.8, 3.0), "weibull_scale": (1.0, 8.0), "driver": (0.5, 10.0)}
-            lo, hi = ranges[name]
+            lo, hi = ranges[name.rsplit("_", 1)[0]]
             rs = np.random.RandomState(op["vseed"] % 2 ** 31)
             vals = np.round(rs.uniform(lo, hi, size=p.values.shape), 3)
             if op.get("nudge"):
                 vals = p.values * (1.0 + op["nudge"])
                 self._probe(st, "set_prms_almost_equal_values")
-            if op.get("bad") and name != "driver":
+            if op.get("bad") and not name.startswith("driver"):
                 vals = -vals
                 st.faults["negative_parameter"] = st.faults.get("negative_parameter", 0) + 1
             p.values[...] = vals
-            self._note(st, 0, "set_prms" if name != "driver" else "set_driver")
+            self._note(st, 0, "set_prms" if not name.startswith("driver") else "set_driver")
             return "ret"
         out = self._call(st, op, n, lambda: sys_.compute())
         if out != "ret":
@@ -618,6 +625,31 @@ class StockSim(Engine):
             raise Violation("system-recompute==fresh", f"system.compute() returned but a freshly built system with the same parameter "
                                                        f"values raises {exc_class(e)}", cls="system-recompute==fresh", array="raises")
         self._compare(st, got, self._sys_results(fresh), "system-recompute==fresh", f"system.compute() at step {n}")
+        # every stock of the system must also equal a stand-alone stock built directly from the values the system's parameters hold
+        for k, (sname, stock) in enumerate(sys_.stocks.items()):
+            lt = stock.lifetime_model
+            try:
+                with np.errstate(all="ignore"), warnings.catch_warnings():
+                    warnings.simplefilter("ignore")
+                    prms = {n_: sys_.parameters[f"{n_}_{k}"].values.copy() for n_ in list(lt.prms)}
+                    alone_lt = type(lt)(dims=stock.dims, time_letter=stock.time_letter, **prms)
+                    kw = {"dims": stock.dims, "name": "alone", "time_letter": stock.time_letter, "lifetime_model": alone_lt}
+                    drv = sys_.parameters[f"driver_{k}"].values.copy()
+                    if isinstance(stock, StockDrivenDSM):
+                        kw["solver"] = stock.solver
+                        kw["stock"] = StockArray(dims=stock.dims, values=drv)
+                    else:
+                        kw["inflow"] = StockArray(dims=stock.dims, values=drv)
+                    alone = type(stock)(**kw)
+                    alone.compute()
+            except Exception as e:  # noqa
+                st.clauses["system-stock==standalone"] = st.clauses.get("system-stock==standalone", 0) + 1
+                raise Violation("system-stock==standalone", f"system.compute() returned but a stand-alone stock with the parameter values of "
+                                                            f"'{sname}' raises {exc_class(e)}", cls="system-stock==standalone", array="raises")
+            self._compare(st, self._results(stock), self._results(alone), "system-stock==standalone",
+                          f"stock '{sname}' after system.compute() at step {n} (vs. a stand-alone stock with the system's parameter values)")
+        if len(sys_.stocks) > 1:
+            self._probe(st, "system_with_two_dynamic_stocks")
         if op.get("twice"):
             out2 = self._call(st, {}, n, lambda: sys_.compute())
             if out2 != "ret":
